@@ -5,33 +5,86 @@ import (
 	"errors"
 	"fmt"
 
+	"github.com/ipfs/boxo/blockservice"
+	"github.com/ipfs/boxo/blockstore"
+	offline "github.com/ipfs/boxo/exchange/offline"
 	bsfetcher "github.com/ipfs/boxo/fetcher/impl/blockservice"
 	"github.com/ipfs/boxo/internal/verifrt"
 	dag "github.com/ipfs/boxo/ipld/merkledag"
-	mdtest "github.com/ipfs/boxo/ipld/merkledag/test"
 	ft "github.com/ipfs/boxo/ipld/unixfs"
 	uio "github.com/ipfs/boxo/ipld/unixfs/io"
 	"github.com/ipfs/boxo/path"
+	blocks "github.com/ipfs/go-block-format"
 	cid "github.com/ipfs/go-cid"
+	ds "github.com/ipfs/go-datastore"
+	dssync "github.com/ipfs/go-datastore/sync"
 	format "github.com/ipfs/go-ipld-format"
 	"github.com/ipfs/go-unixfsnode"
 	dagpb "github.com/ipld/go-codec-dagpb"
 )
 
+// zz33CtxBlockstore is an in-memory blockstore that honours cancellation like any block source doing I/O
+// (bitswap, remote or on-disk stores): a read whose context is already done is refused with the context's error.
+type zz33CtxBlockstore struct {
+	blockstore.Blockstore
+	reads int
+}
+
+func (b *zz33CtxBlockstore) Get(ctx context.Context, c cid.Cid) (blocks.Block, error) {
+	if err := ctx.Err(); err != nil {
+		return nil, err
+	}
+	b.reads++
+	return b.Blockstore.Get(ctx, c)
+}
+
+func (b *zz33CtxBlockstore) Has(ctx context.Context, c cid.Cid) (bool, error) {
+	if err := ctx.Err(); err != nil {
+		return false, err
+	}
+	return b.Blockstore.Has(ctx, c)
+}
+
+func (b *zz33CtxBlockstore) GetSize(ctx context.Context, c cid.Cid) (int, error) {
+	if err := ctx.Err(); err != nil {
+		return 0, err
+	}
+	return b.Blockstore.GetSize(ctx, c)
+}
+
+// zz33AllChildShards: every slot of the root shard block of a HAMT directory (fan-out 8: link names carry a
+// one-digit slot prefix) holds a child shard, so that looking up any name - present or not - needs at least
+// one more block than the directory's own.
+func zz33AllChildShards(nd format.Node) bool {
+	links := nd.Links()
+	if len(links) != 8 {
+		return false
+	}
+	for _, l := range links {
+		if len(l.Name) != 1 {
+			return false
+		}
+	}
+	return true
+}
+
 // zz33RealUnixFS is the native twin of a UnixFS-shaped model world (never run under the engine): the same
-// shape is built with the real UnixFS directory code (basic, or HAMT-sharded with a fan-out of 8 and 24 filler
-// entries so that lookups cross shard blocks), stored in a real offline block service, and resolved with the
-// real fetcher + go-unixfsnode reifier. It checks (a) the property on the real stack and (b) that the real
-// stack behaves as the model world the engine explored (same outcome class, same named segment, the block
-// at the same position on the path).
-func zz33RealUnixFS(tag string, k int, segs []string, exp zz33Expect, hamt bool) {
-	ctx := context.Background()
-	bserv := mdtest.Bserv()
+// shape is built with the real UnixFS directory code - every directory on the path is a basic directory or,
+// where the model directory is lazy, a HAMT-sharded one (fan-out 8, 24+ filler entries, as many as it takes
+// to push every entry into a child shard block) - stored in a real offline block service over a blockstore
+// that honours context cancellation, and resolved with the real fetcher + go-unixfsnode reifier. It checks
+// (a) the property on the real stack and (b) that the real stack behaves as the model world the engine explored
+// (same outcome class, same named segment, the block at the same position on the path).
+// callerCancelled: resolve with a context the caller has already cancelled.
+func zz33RealUnixFS(tag string, k int, segs []string, exp zz33Expect, callerCancelled bool) {
+	bctx := context.Background()
+	store := &zz33CtxBlockstore{Blockstore: blockstore.NewBlockstore(dssync.MutexWrap(ds.NewMapDatastore()))}
+	bserv := blockservice.New(store, offline.Exchange(store))
 	dserv := dag.NewDAGService(bserv)
 
 	file := func(label string) format.Node {
 		n := dag.NodeWithData(ft.FilePBData([]byte(label), uint64(len(label))))
-		if err := dserv.Add(ctx, n); err != nil {
+		if err := dserv.Add(bctx, n); err != nil {
 			panic(err)
 		}
 		return n
@@ -40,17 +93,11 @@ func zz33RealUnixFS(tag string, k int, segs []string, exp zz33Expect, hamt bool)
 		name string
 		n    format.Node
 	}
-	mkdir := func(entries []entry) format.Node {
+	mkdir := func(entries []entry, hamt bool) format.Node {
 		var d uio.Directory
 		var err error
 		if hamt {
 			d, err = uio.NewHAMTDirectory(dserv, 0, uio.WithMaxHAMTFanout(8))
-			if err == nil {
-				filler := file("filler")
-				for i := 0; i < 24 && err == nil; i++ {
-					err = d.AddChild(ctx, fmt.Sprintf("f%02d", i), filler)
-				}
-			}
 		} else {
 			d, err = uio.NewBasicDirectory(dserv)
 		}
@@ -58,15 +105,33 @@ func zz33RealUnixFS(tag string, k int, segs []string, exp zz33Expect, hamt bool)
 			panic(err)
 		}
 		for _, e := range entries {
-			if err := d.AddChild(ctx, e.name, e.n); err != nil {
+			if err := d.AddChild(bctx, e.name, e.n); err != nil {
 				panic(err)
 			}
 		}
-		nd, err := d.GetNode()
-		if err != nil {
+		var nd format.Node
+		if hamt {
+			filler := file("filler")
+			for i := 0; ; i++ {
+				if i >= 24 {
+					if nd, err = d.GetNode(); err != nil {
+						panic(err)
+					}
+					if zz33AllChildShards(nd) {
+						break
+					}
+					if i > 400 {
+						panic("zz33: HAMT root shard still holds entries")
+					}
+				}
+				if err := d.AddChild(bctx, fmt.Sprintf("f%02d", i), filler); err != nil {
+					panic(err)
+				}
+			}
+		} else if nd, err = d.GetNode(); err != nil {
 			panic(err)
 		}
-		if err := dserv.Add(ctx, nd); err != nil {
+		if err := dserv.Add(bctx, nd); err != nil {
 			panic(err)
 		}
 		return nd
@@ -78,7 +143,7 @@ func zz33RealUnixFS(tag string, k int, segs []string, exp zz33Expect, hamt bool)
 		entries := []entry{{fmt.Sprintf("marker%d", i), file(fmt.Sprintf("marker%d", i))}}
 		if i < len(exp.levels) {
 			lv := exp.levels[i]
-			entries = append(entries, entry{lv.other, mkdir([]entry{{"decoy", file(fmt.Sprintf("decoy%d", i))}})})
+			entries = append(entries, entry{lv.other, mkdir([]entry{{"decoy", file(fmt.Sprintf("decoy%d", i))}}, false)})
 			if lv.exists {
 				var child format.Node
 				if lv.kind == zz33LinkDir {
@@ -90,7 +155,7 @@ func zz33RealUnixFS(tag string, k int, segs []string, exp zz33Expect, hamt bool)
 				entries = append(entries, entry{lv.name, child})
 			}
 		}
-		nd := mkdir(entries)
+		nd := mkdir(entries, exp.lazy[i])
 		reached[i] = nd.Cid()
 		return nd
 	}
@@ -113,13 +178,45 @@ func zz33RealUnixFS(tag string, k int, segs []string, exp zz33Expect, hamt bool)
 	if err != nil {
 		panic(err)
 	}
+	// the caller's context: alive until this function returns, or cancelled before the calls
+	ctx, cancel := context.WithCancel(context.Background())
+	defer cancel()
+	if callerCancelled {
+		cancel()
+		store.reads = 0
+		c, rem, err := r.ResolveToLastNode(ctx, ip)
+		if k > 0 {
+			verifrt.Assert(tag+".tolastnode-fails", err != nil)
+		}
+		if err != nil {
+			verifrt.Assert(tag+".tolastnode-returns-nothing", !c.Defined() && len(rem) == 0)
+		}
+		n, lnk, err := r.ResolvePath(ctx, ip)
+		verifrt.Assert(tag+".resolvepath-fails", err != nil)
+		verifrt.Assert(tag+".resolvepath-returns-nothing", n == nil && lnk == nil)
+		nodes, err := r.ResolvePathComponents(ctx, ip)
+		verifrt.Assert(tag+".components-fails", err != nil)
+		verifrt.Assert(tag+".components-returns-nothing", len(nodes) == 0)
+		verifrt.Assert(tag+".nothing-fetched", store.reads == 0)
+		return
+	}
+
 	c, rem, err := r.ResolveToLastNode(ctx, ip)
+	verifrt.Assert(tag+".no-context-error-while-caller-alive", !zz33IsCtxErr(err))
 	if exp.missing < 0 {
 		verifrt.Assert(tag+".existing-path-resolves", err == nil)
 		verifrt.Assert(tag+".cid-of-named-entry", err == nil && c.Equals(reached[k]))
 		verifrt.Assert(tag+".remainder-empty", err == nil && len(rem) == 0)
 		n, lnk, err := r.ResolvePath(ctx, ip)
 		verifrt.Assert(tag+".resolvepath-link-of-named-entry", err == nil && n != nil && lnk.String() == reached[k].String())
+		lastIsDir := k == 0 || exp.levels[k-1].kind == zz33LinkDir
+		if err == nil && lastIsDir {
+			// the directory handed out stays usable (lazy shard loads included) while the caller's context lives
+			m, lerr := n.LookupByString(fmt.Sprintf("marker%d", k))
+			verifrt.Assert(tag+".resolvepath-node-usable-while-caller-alive", lerr == nil && m != nil)
+		}
+		nodes, err := r.ResolvePathComponents(ctx, ip)
+		verifrt.Assert(tag+".components-one-node-per-segment", err == nil && len(nodes) == k+1)
 		return
 	}
 	verifrt.Assert(tag+".missing-name-fails", err != nil)
@@ -134,4 +231,5 @@ func zz33RealUnixFS(tag string, k int, segs []string, exp zz33Expect, hamt bool)
 	}
 	_, _, err = r.ResolvePath(ctx, ip)
 	verifrt.Assert(tag+".resolvepath-missing-fails", err != nil)
+	verifrt.Assert(tag+".resolvepath-no-context-error-while-caller-alive", !zz33IsCtxErr(err))
 }
